@@ -1288,7 +1288,56 @@ end Slicec.Gen
     return text, len(kinds) + len(allowable) + len(rows) + len(sites) + len(rejected) + len(bad_targets) + len(cont_rows) + len(plain) + 2
 
 
+def gen_comment_keywords(repo):
+    """tag keywords of the doc-comment lexer: `read_tag_keyword` match arms + the inline/block validity match"""
+    T, rel = "CommentKeywords", "slicec/src/parsers/comments/lexer.rs"
+    src = read(repo, rel, T)
+    body = fn_body(src, "read_tag_keyword", T, rel)
+    arms = re.findall(r'"([A-Za-z0-9_]+)"\s*=>\s*Ok\(\(\s*start_location\s*,\s*TokenKind::(\w+)\s*,\s*self\.cursor\s*\)\)', body)
+    if not arms:
+        raise ExtractionError(T, rel, "no `\"kw\" => Ok((start_location, TokenKind::X, self.cursor))` arms in read_tag_keyword")
+    if not re.search(r'""\s*=>\s*Err\(\(\s*start_location\s*,\s*ErrorKind::MissingTag', body):
+        raise ExtractionError(T, rel, "the `\"\" => MissingTag` arm is gone")
+    if not re.search(r'\w+\s*=>\s*Err\(\(\s*start_location\s*,\s*ErrorKind::UnknownTag', body):
+        raise ExtractionError(T, rel, "the catch-all UnknownTag arm is gone")
+    m = re.search(r'let\s+is_valid\s*=\s*match\s+token_kind', body)
+    if not m:
+        raise ExtractionError(T, rel, "validity match on token_kind not found")
+    vbody = block_after(body, m.end())
+    if vbody is None:
+        raise ExtractionError(T, rel, "validity match block not balanced")
+    inline = {}
+    for lhs, rhs in re.findall(r'((?:TokenKind::\w+\s*\|?\s*)+)=>\s*(!?\s*is_inline)\s*,', vbody):
+        for k in re.findall(r'TokenKind::(\w+)', lhs):
+            inline[k] = not rhs.replace(" ", "").startswith("!")
+    rows = []
+    for kw, tok in arms:
+        if tok not in inline:
+            raise ExtractionError(T, rel, f"token kind {tok} has no inline/block validity arm")
+        rows.append((kw, tok, inline[tok]))
+    def chars(w):
+        return "[" + ", ".join("'%s'" % c for c in w) + "]"
+    def row(r):
+        return f'({chars(r[0])}, .{r[1]}, {"true" if r[2] else "false"})'
+    kinds = []
+    for r in rows:
+        if r[1] not in kinds:
+            kinds.append(r[1])
+    text = f"""-- GENERATED by translator/extract.py from slicec/src/parsers/comments/lexer.rs — do not edit.
+namespace Slicec.Gen
+/-- the keyword token kinds `read_tag_keyword` can return -/
+inductive TagKw where
+{chr(10).join("  | " + k for k in kinds)}
+  deriving DecidableEq, Repr, Inhabited
+/-- doc-comment tag keywords: (text after '@', token kind, valid only inline (true) / only to start a block (false)) -/
+def commentTagKeywords : List (List Char × TagKw × Bool) := [{", ".join(row(r) for r in rows)}]
+end Slicec.Gen
+"""
+    return text, len(rows)
+
+
 TABLES = {
+    "CommentKeywords": gen_comment_keywords,
     "Lints": gen_lints,
     "ResolveKinds": gen_resolve_kinds,
     "DriverShape": gen_driver_shape,
